@@ -802,9 +802,9 @@ class Term:
         return self.subst(inst).beta_norm()
 
     def occurs_var(self, t: Term) -> Term:
-        """Whether the variable t occurs in self."""
+        """Whether the variable (or schematic variable) t occurs in self."""
         if self.is_svar():
-            return False
+            return self == t
         if self.is_var():
             return self == t
         elif self.is_const():
